@@ -18,6 +18,7 @@ import EaselModel.Pipeline.Liveness
 import EaselModel.Pipeline.FairWitness
 import EaselModel.Dsqdata.ShortRead
 import EaselModel.Dsqdata.CutLemmas
+import EaselModel.Dsqdata.CutIndex
 /-! # C12 — property theorems (statements + glue only; lemmas live in WorkQueue/*.lean, Dsqdata/*.lean)
 
 Work queue (`esl_workqueue.c`): every theorem is about *all* states reachable from `esl_workqueue_Create(size)` by
@@ -982,6 +983,32 @@ theorem dsq_written_passes_nseq_check (tag alphatype : Nat) (db : List Dsqdata.S
     (h2 : (db.map fun r => (Dsqdata.encodeMeta (Dsqdata.metaOf r)).length).sum < 2 ^ 63) (hn : db.length < 2 ^ 64) :
     (Dsqdata.readDbX maxseq maxpacket (Dsqdata.writtenHeader tag alphatype (alphatype == 3) db)).2 = .eof :=
   Dsqdata.readDbX_written tag alphatype db maxseq maxpacket hwf hms hfit h1 h2 hn
+
+/-- **A cut `.dsqi` ends in the loader's fatal error - never in `eslEOF`** (round 6b; the repaired loader, 78cbf46). For ANY opened
+    database `o` whose index file, behind its header, holds fewer complete 16-byte records than the header's `nseq` - whatever the
+    other two files contain, whatever the chunk limits: the read (`readDbX`: the loader's main loop and its end-of-data check) does
+    not end with end of data. Every sequence the loader loads was read as a complete index record (`loaderRunX_loaded_le`), so the
+    count it compares with `nseq` at end of data falls short: `fatalIndex` - unless a short read of packets / metadata stopped it
+    before. With `pipe_cut_never_eof` / `pipe_cut_no_deadlock`: no consumer is told EOF on a truncated index, and none waits for ever. -/
+theorem dsq_cut_index_never_eof (maxseq : Nat) (maxpacket : Int) (o : Dsqdata.Opened) (h : o.ifp.length / 16 < o.nseq) :
+    (Dsqdata.readDbX maxseq maxpacket o).2 ≠ .eof :=
+  Dsqdata.cut_index_not_eof maxseq maxpacket o h
+
+/-- … in particular the index written for `db` (fewer than `2^64` records) cut `m` bytes behind its header with `m / 16 < db.length`:
+    at least one index record is incomplete or missing -/
+theorem dsq_cut_written_index (tag alphatype : Nat) (db : List Dsqdata.SeqRec) (maxseq : Nat) (maxpacket : Int) (m : Nat)
+    (hn : db.length < 2 ^ 64) (hm : m / 16 < db.length) :
+    (Dsqdata.readDbX maxseq maxpacket
+      { Dsqdata.writtenHeader tag alphatype (alphatype == 3) db with
+          ifp := (Dsqdata.writtenHeader tag alphatype (alphatype == 3) db).ifp.take m }).2 ≠ .eof := by
+  apply Dsqdata.cut_index_not_eof
+  have h1 : ((Dsqdata.writtenHeader tag alphatype (alphatype == 3) db).ifp.take m).length ≤ m := by
+    rw [List.length_take]; exact Nat.min_le_left _ _
+  have h2 : (Dsqdata.writtenHeader tag alphatype (alphatype == 3) db).nseq = db.length := by
+    simp only [Dsqdata.writtenHeader]; exact Nat.mod_eq_of_lt hn
+  show ((Dsqdata.writtenHeader tag alphatype (alphatype == 3) db).ifp.take m).length / 16 < (Dsqdata.writtenHeader tag alphatype (alphatype == 3) db).nseq
+  rw [h2]
+  exact Nat.lt_of_le_of_lt (Nat.div_le_div_right h1) hm
 
 /-- … and a cut index does not: `demoDb` with the second index record missing ends in `fatalIndex 2 1` after the first chunk -/
 example : (match Dsqdata.openDb none (match Dsqdata.writeDb 7 2 [] [] demoDb with
